@@ -960,7 +960,7 @@ mutual
     | (k, v) :: rest, hc, hn => by
         simp only [CleanM] at hc
         simp only [NDM] at hn
-        exact ⟨hc.1, tidy_of_clean_nd v hc.2.2.2.1 hn.1, tidyM_of_clean_nd rest hc.2.2.2.2 hn.2⟩
+        exact ⟨hc.1, tidy_of_clean_nd v hc.2.2.1 hn.1, tidyM_of_clean_nd rest hc.2.2.2 hn.2⟩
 end
 
 
